@@ -177,4 +177,19 @@ return ok
 """
                 out.append(mk_case(f"c10.rule.{sid}.{kid}.{did}", [("t", "int"), ("u1", "Union[int, bool, None]"), ("u2", "int")], body,
                                    pre=[f"BU({L}, t, u1, u2)"], stubs=["sym_repr"]))
+    body = """
+built = Schema([Rule(('answer',), Value.in_(['yes', 'no'])), Rule(('mode',), Value.equal_to(10))])
+doc = {'answer': u1, 'mode': u2}
+ok = True
+if concrete_run():
+    plain = "rules:\\n  - path: [answer]\\n    condition:\\n      value.in: [yes, no]\\n  - path: [mode]\\n    condition:\\n      value.equal_to: 010\\n"
+    first = Schema.from_yaml(plain)
+    ok = ok and note('plain YAML schema equals the API-built one', first == built)
+    other = Schema.from_yaml("%YAML 1.1\\n---\\nrules:\\n  - path: [a]\\n    condition: {value.truthy: null}\\n")
+    again = Schema.from_yaml(plain)
+    ok = ok and note('the same text parses the same after another document was loaded', again == built and again == first)
+    ok = ok and same('... and validates identically', summarize_validation(again.validate(doc)), summarize_validation(built.validate(doc)))
+return ok
+"""
+    out.append(mk_case("c10.yaml.history", [("u1", "Union[int, bool, None]"), ("u2", "int")], body, pre=[f"BU({L}, u1, u2)"], stubs=["sym_repr"]))
     return out
